@@ -109,6 +109,79 @@ def get_program(case):
     raise ValueError(case)
 
 
+B09_RESERVED2 = {"IF", "ON", "OR", "TO", "DO", "PI", "SQ"}
+
+
+def peg_text(case):
+    """A sentence derived from the grammar object of the tree under observation (prefix operators left out: they are the
+    trigger of the known PREFIX-OVER-LOGIC finding, which cannot be diagnosed without an abstract program)."""
+    from coco.b09 import compiler
+    from ..gen import peggen
+
+    g = getattr(compiler.grammar, "_real", compiler.grammar)
+    rng = random.Random(case["seed"])
+    s = peggen.PegSampler(g, rng, max_depth=rng.choice([14, 18, 22]), avoid={"unop_exp"}, avoid_optional_literals={"NOT"})
+    return s.gen(), g
+
+
+def source_structure(g, text):
+    """Read off the tool's own parse of the SOURCE (not its output): is FOR/NEXT properly nested in textual order, and
+    does any variable name begin with a BASIC09 reserved word?  -> (nested: bool, reserved: bool)"""
+    try:
+        tree = g.parse(text)
+    except Exception:  # noqa: BLE001
+        return True, False
+    stack = []
+    nested = True
+    reserved = False
+    todo = [tree]
+    order = []
+    while todo:
+        nd = todo.pop()
+        nm = getattr(nd, "expr_name", "")
+        if nm in ("for_statement", "for_step_statement", "next_var_statement", "next_empty_statement"):
+            order.append((nd.start, nm, nd))
+            continue
+        if nm in ("var", "str_var"):
+            if nd.text[:2] in B09_RESERVED2:
+                reserved = True
+        todo.extend(nd.children)
+
+    def vars_in(nd, only_first=False):
+        out = []
+        st = [nd]
+        while st:
+            x = st.pop()
+            if getattr(x, "expr_name", "") == "var":
+                out.append((x.start, x.text[:2]))
+                continue
+            st.extend(x.children)
+        out.sort()
+        return [v for _, v in out]
+
+    for _, nm, nd in sorted(order, key=lambda t: t[0]):
+        vs = vars_in(nd)
+        for v in vs:
+            if v in B09_RESERVED2:
+                reserved = True
+        if nm.startswith("for"):
+            stack.append(vs[0] if vs else "?")
+        elif nm == "next_empty_statement":
+            if not stack:
+                nested = False
+            else:
+                stack.pop()
+        else:
+            for v in vs:
+                if not stack or stack[-1] != v:
+                    nested = False
+                    break
+                stack.pop()
+    if stack:
+        nested = False
+    return nested, reserved
+
+
 def run_case(case):
     opts = OPTION_SETS[case["opt"] % len(OPTION_SETS)]
     obs = {"counters": {"cases": 1}, "viols": [], "sets": {}}
@@ -120,6 +193,10 @@ def run_case(case):
         text = case["text"]
         prog = None
         obs["key"] = "text:%s|%d" % (text, case["opt"])
+    elif case["gen"] == "peg":
+        text, peg_grammar = peg_text(case)
+        prog = None
+        obs["key"] = "peg:%s|%d" % (text, case["opt"] % len(OPTION_SETS))
     else:
         prog = get_program(case)
         text = render(prog)
@@ -151,6 +228,26 @@ def run_case(case):
                 obs["viols"].append({"sig": "C07/known-mechanism/" + sorted(t)[0], "detail": detail})
                 return obs
             detail["dehazarded_still_fails"] = True
+    if case["gen"] in ("peg", "text"):
+        if case["gen"] == "text":
+            from coco.b09 import compiler as _c
+
+            peg_grammar = getattr(_c.grammar, "_real", _c.grammar)
+        nested, reserved = source_structure(peg_grammar, text)
+        if reserved:
+            # names beginning with a BASIC09 reserved word: the README tells users to avoid them
+            obs["viols"] = []
+            obs["nontrivial"] = False
+            obs["counters"]["reserved_name_sources"] = 1
+            return obs
+        stem = d.get("stem", "") if kind == "parse" else ""
+        if not nested and any(w in stem for w in ("NEXT", "FOR", "does not close", "never closed", "without")):
+            obs["viols"].append({"sig": "C07/source/FOR-NEXT-not-nested", "detail": detail})
+            return obs
+        line = (d.get("text") or "") if kind == "parse" else ""
+        if kind == "parse" and (d.get("kw") == "READ" or " INPUT " in line or line.lstrip("0123456789 ").startswith("INPUT")):
+            obs["viols"].append({"sig": "C07/known-mechanism/READ-INPUT-subscript-unvisited", "detail": detail})
+            return obs
     if kind == "parse":
         sig = "C07/parse/%s/%s" % (d["stem"].replace(" ", "-"), d["kw"])
     else:
@@ -168,6 +265,11 @@ def cases(tier, seed):
     for i in range(n // 3):
         yield {"gen": "prog", "seed": seed * 7000003 + i, "opt": i,
                "knobs": {"max_depth": 1, "device": i % 2 == 0, "ifs": i % 3 != 0, "jumps": i % 5 != 0}}
+    for i in range(1500 if tier == "quick" else 120000):
+        yield {"gen": "peg", "seed": seed * 8000009 + i, "opt": i}
+    for t in NEAR_MISS_TEXTS:
+        for o in (0, 1):
+            yield {"gen": "text", "text": t, "opt": o}
     ex = sorted(glob.glob(os.path.join(boot.REPO, "examples", "*", "*.bas")))
     for p in ex:
         for o in range(len(OPTION_SETS)):
@@ -185,6 +287,16 @@ def cases(tier, seed):
         yield {"gen": "c03", "seed": seed * 37 + i, "opt": i}
         yield {"gen": "c05", "seed": seed * 41 + i, "opt": i}
 
+
+# spellings at the edge of the accepted language (refused today, or accepted in some form): if a change of the grammar
+# lets one through, its output must still be well-formed
+NEAR_MISS_TEXTS = [
+    '10 DATA SIZE 5" DISK,PLAIN', '10 DATA JOE "KING" SMITH', '10 DATA A"B', '10 DATA "A"B', '10 DATA "A""B"', "10 DATA A'B", "10 DATA A:B",
+    '10 DATA "A,B', '10 DATA X"', '10 READ A$\n20 DATA 5" ,X', '10 PRINT "A""B"', '10 PRINT "A"B"C"', '10 A$="A"+"B""', "10 PRINT 'X",
+    '10 REM "', "10 ' \"", '10 INPUT "A"";B', '10 INPUT "A";"B";C', '10 LINE INPUT "A""B";C$', '10 HPRINT(1,2),"A""', '10 PLAY "A"+"B"""',
+    '10 IF A$="X"" THEN 10', "10 PRINT CHR$(34);\"A\";CHR$(34)", '10 PRINT "(*";"*)"', '10 REM (* X *)', "10 ' *) X (*", '10 PRINT "\\"',
+    '10 A$="\\":B$="X\\Y"', '10 PRINT "A\\B"; : PRINT "C"', "10 DATA A\\B,\\", "10 REM A\\B", "10 DATA (*,*)", '10 A$="!":PRINT"!"',
+]
 
 SINGLE_STATEMENTS = [
     "10 CLS", "10 CLS 3", "10 PRINT", "10 PRINT @ 32, \"A\"", "10 PRINT@5", "10 ?\"A\";B;", "10 LOCATE 1,2", "10 ATTR 1,2,B,U",
